@@ -37,6 +37,11 @@ func (p *Plugin) Start(_ pipeline.AnyConfig, params *pipeline.OutputPluginParams
 func (_ *Plugin) Stop() {}
 
 func (p *Plugin) Out(event *pipeline.Event) {
-	fmt.Println(event.Root.EncodeToString()) // nolint:forbidigo
+	// the parent of spawned events (split: "parent event will be discarded") is handed to the
+	// output only to be committed: its nodes now belong to the children and Encode would panic on
+	// them. Batch based outputs skip it in Batch.ForEach.
+	if !event.IsChildParentKind() {
+		fmt.Println(event.Root.EncodeToString()) // nolint:forbidigo
+	}
 	p.controller.Commit(event)
 }
